@@ -20,6 +20,11 @@ func (s *Store) maxSizeEnforcer(maxSize int64) {
 			}
 			// Add message to all.
 			m := md.msg
+			if m.gone {
+				// Removed from its mailbox before it was registered here.
+				close(md.done)
+				continue
+			}
 			el := all.PushBack(m)
 			m.el = el
 			curSize += int64(m.Size())
@@ -39,8 +44,10 @@ func (s *Store) maxSizeEnforcer(maxSize int64) {
 			}
 			// Remove message from all.
 			m := md.msg
-			el := all.Remove(m.el)
-			if el != nil {
+			if m.el == nil {
+				// Not registered yet, its pending delivery must be ignored.
+				m.gone = true
+			} else if all.Remove(m.el) != nil {
 				curSize -= int64(m.Size())
 			}
 			close(md.done)
